@@ -14,6 +14,7 @@ class ClassRef:
         for n in node.body:
             if isinstance(n, (ast.FunctionDef, ast.AsyncFunctionDef)):
                 self.all_defs.setdefault(n.name, []).append(n)
+        self.keywords = {k.arg: k.value for k in getattr(node, 'keywords', []) if k.arg and k.arg != 'metaclass'}
         self.bases = []
         for b in node.bases:
             if isinstance(b, ast.Name):
@@ -251,6 +252,10 @@ class Program:
 
     def subclasses(self, basename):
         return [c for c in self.classes.values() if c.name != basename and self.is_subclass(c, basename)]
+
+    def all_classes(self):
+        """every module-level class of the package"""
+        return [c for m in self.modules.values() for c in m.classes.values()]
 
     def all_functions(self):
         """every def in the package (module-level, methods, nested) as FuncRef"""
